@@ -167,6 +167,22 @@ def main():
             print("REJECTED", r["property"], r["mutant"], r["steps"], r.get("log", "")[:500])
     elif sys.argv[1] == "run":
         run_checks(sys.argv[2:])
+    elif sys.argv[1] == "report":
+        # rebuild RESULTS.md from the check_results recorded in every meta.json
+        rows = []
+        for d in sorted(x for x in os.listdir(SEEDED) if os.path.isdir(os.path.join(SEEDED, x))):
+            m = json.load(open(os.path.join(SEEDED, d, "meta.json")))
+            res = m.get("check_results", {})
+            own = res.get(m["property"], {})
+            th = m.get("thorough_results", {})
+            rows.append((d, m["property"], " ".join("%s:%s" % (p, r["verdict"]) for p, r in res.items()) + ("".join(" ; thorough %s:%s" % (p, r["verdict"]) for p, r in th.items())), own.get("first", "")[:110], m.get("needs_to_manifest", "")[:150]))
+        with open(os.path.join(SEEDED, "RESULTS.md"), "w") as f:
+            f.write("| seeded change | property | quick checks | first report | needs |\n|---|---|---|---|---|\n")
+            for r in rows:
+                f.write("| %s | %s | %s | %s | %s |\n" % tuple(str(x).replace("|", "/") for x in r))
+            caught = sum(1 for r in rows if ("%s:caught" % r[1]) in r[2].split(" ; ")[0])
+            f.write("\n%d seeded changes; %d reported by the quick check of the property they were written for.\n" % (len(rows), caught))
+        print("report written:", len(rows))
     else:
         print(__doc__)
         sys.exit(2)
